@@ -124,7 +124,9 @@ def slices_to_raw_chunks(slice_filename_lists, dest_url, input_orientation,
             first_slice = first_slice_in_order
             last_slice = last_slice_in_order
         slice_slicing = np.s_[first_slice
-                              : last_slice
+                              # a stop of -1 would mean "up to the last
+                              # element", not "down to and including 0"
+                              : last_slice if last_slice >= 0 else None
                               : input_axis_inversions[2]]
         tqdm.write("Reading slices {} to {} ({}B memory needed)... "
                    .format(first_slice, last_slice - input_axis_inversions[2],
